@@ -19,18 +19,32 @@ def join(rows):
     return [",".join(r) for r in rows]
 
 
-def run_worlds(chk, prop, n, streams=("regular",), seed_tag="e2e"):
+def _execute_world(job):
     from harness.impl import sim_impl
 
+    world, seed = job
+    case, obs = sim_impl.Run(world, seed=seed).execute()
+    return {"world": world, "seed": seed, "case": case, "obs": obs}
+
+
+def run_worlds(chk, prop, n, streams=("regular",), seed_tag="e2e"):
+    """Generate n worlds (deterministically from the seed) and run each through the real simulator; the runs are
+    independent and are spread over worker processes."""
+    import multiprocessing as mp
+    import os
+
+    from harness.impl import sim_impl  # noqa: F401  (imports the repository before forking)
+
     rng = common.Rng(chk.seed, f"{seed_tag}")
-    runs = []
+    jobs = []
     for i in range(n):
         stream = streams[i % len(streams)]
-        world = sim_gen.gen_world(rng, stream)
-        r = sim_impl.Run(world, seed=chk.seed * 100003 + i)
-        case, obs = r.execute()
-        runs.append({"world": world, "seed": chk.seed * 100003 + i, "case": case, "obs": obs})
-    return runs
+        jobs.append((sim_gen.gen_world(rng, stream), chk.seed * 100003 + i))
+    procs = int(os.environ.get("VERIF_E2E_PROCS", "0")) or min(8, max(1, (os.cpu_count() or 2) // 2))
+    if procs <= 1 or n < 32:
+        return [_execute_world(j) for j in jobs]
+    with mp.get_context("fork").Pool(procs) as pool:
+        return pool.map(_execute_world, jobs, chunksize=max(1, n // (procs * 8)))
 
 
 def compare(runs):
@@ -609,7 +623,7 @@ def shrink_world(world, seed, fails):
     return w
 
 
-def run_suite(chk: common.Check, prop: str, n_quick=150, n_thorough=2500, streams=("regular",), extra_specs=None):
+def run_suite(chk: common.Check, prop: str, n_quick=400, n_thorough=4000, streams=("regular",), extra_specs=None):
     from harness.impl import sim_impl
 
     broken = chk.lean_obligations()
